@@ -1014,6 +1014,26 @@ func (s *c06state) probes() []*c06ev {
 				}
 			}
 		}
+		// --- transfer, batches of 2-3 states with a zero-valued state in EVERY position
+		// (first / middle / last, alone or several) among non-zero states: a
+		// zero-valued state moves nothing and needs no witness, the states around
+		// it are judged as usual; whatever the call reports, a reported failure
+		// (error or FALSE) must leave the storage untouched, also when it comes
+		// after states that were already applied.
+		for _, v2 := range []bool{false, true} {
+			method, nz, ws := "transfer", one, []int{1, 3}
+			if v2 {
+				method, nz = "transferV2", c06frac
+				if !thor {
+					ws = []int{3}
+				}
+			}
+			for _, sts := range c06zeroBatches(nz) {
+				for _, w := range ws {
+					add(c06ev{Tok: t, Method: method, Sts: sts, W: w})
+				}
+			}
+		}
 		// --- approve
 		apairs := [][2]string{{"A", "B"}, {"B", "A"}, {"A", "A"}, {"C", "A"}, {"A", "C"}, {"B", "C"}}
 		if thor {
@@ -1110,6 +1130,81 @@ func (s *c06state) probes() []*c06ev {
 	return out
 }
 
+// c06zeroBatches: every batch of 2 and of 3 states whose states are drawn from
+// {A>B, B>C} (a sender that owns nearly everything and one that may own
+// nothing / may not have witnessed) and whose amounts are drawn from {0, nz},
+// with at least one zero-valued and at least one non-zero state: 4*2 + 8*6 = 56.
+func c06zeroBatches(nz *big.Int) [][]c06st {
+	var out [][]c06st
+	zero := big.NewInt(0)
+	for n := 2; n <= 3; n++ {
+		for seq := 0; seq < 1<<uint(n); seq++ {
+			for mask := 1; mask < 1<<uint(n)-1; mask++ { // bit i set: state i is zero-valued
+				var sts []c06st
+				for i := 0; i < n; i++ {
+					st := c06st{"A", "B", nz}
+					if seq>>uint(i)&1 != 0 {
+						st = c06st{"B", "C", nz}
+					}
+					if mask>>uint(i)&1 != 0 {
+						st.V = zero
+					}
+					sts = append(sts, st)
+				}
+				out = append(out, sts)
+			}
+		}
+	}
+	return out
+}
+
+// c06zeroPositions: for a transfer batch that mixes zero-valued and non-zero
+// states, the positions (first / middle / last) of its zero-valued states.
+func c06zeroPositions(e *c06ev) []string {
+	if e.Tick >= 0 || e.kind() != "transfer" || len(e.Sts) < 2 {
+		return nil
+	}
+	var pos []string
+	nonzero := false
+	for i, st := range e.Sts {
+		if st.V.Sign() != 0 {
+			nonzero = true
+			continue
+		}
+		p := "middle"
+		if i == 0 {
+			p = "first"
+		} else if i == len(e.Sts)-1 {
+			p = "last"
+		}
+		pos = append(pos, p)
+	}
+	if !nonzero {
+		return nil
+	}
+	return pos
+}
+
+// c06batchClasses: the non-vacuity classes of the zero-position batches
+// (position of the zero-valued state x method x applied / refused).
+func c06batchClasses(e *c06ev, cls string) []string {
+	pos := c06zeroPositions(e)
+	if len(pos) == 0 || cls == "" {
+		return nil
+	}
+	outcome := "other"
+	if strings.Contains(cls, ":ok") {
+		outcome = "applied"
+	} else if strings.HasSuffix(cls, "/refused") {
+		outcome = "refused"
+	}
+	var out []string
+	for _, p := range pos {
+		out = append(out, "batch/zero@"+p+"/"+c06tokName[e.Tok]+"."+e.Method+":"+outcome)
+	}
+	return out
+}
+
 // probeAll judges every probe event as one further step from s.
 func (s *c06state) probeAll() {
 	y := s.sys
@@ -1135,6 +1230,7 @@ func (s *c06state) probeAll() {
 		if k == "" {
 			k, d = sc.invariant()
 		}
+		batch := c06batchClasses(e, cls)
 		if y.dist {
 			k, cls = c06distKey(k, e), c06distClass(cls, e)
 		}
@@ -1144,6 +1240,9 @@ func (s *c06state) probeAll() {
 			continue
 		}
 		y.r.Class(cls)
+		for _, c := range batch {
+			y.r.Class(c)
+		}
 		if sc.obs.key != pre {
 			dirty = true
 		}
@@ -1234,7 +1333,7 @@ func TestVerif_C06(t *testing.T) {
 	r := vh.Start(t, "C06", "tokens")
 	defer r.Finish()
 	c06init()
-	r.Rule("states = distinct (ONT+ONG storage dump, block-time level) reached by BFS over authorised state-changing calls (transfer/approve/transferFrom and V2 forms of both tokens, chained multi-state transfer, calling-contract witness, time ticks); in every distinct state every probe of the full one-step alphabet (6 methods x 2 tokens x account pairs incl. self and the ONT contract x amounts {0,1,1.5,bal,bal+1,allowance,allowance+1,supply+1,2^64-1,2^64+1} x witness sets {0,A,B,AB} x caller context) is executed and judged; transitions = calls on the real NativeService; classes = method x statement verdict x outcome")
+	r.Rule("states = distinct (ONT+ONG storage dump, block-time level) reached by BFS over authorised state-changing calls (transfer/approve/transferFrom and V2 forms of both tokens, chained multi-state transfer, calling-contract witness, time ticks); in every distinct state every probe of the full one-step alphabet (6 methods x 2 tokens x account pairs incl. self and the ONT contract x amounts {0,1,1.5,bal,bal+1,allowance,allowance+1,supply+1,2^64-1,2^64+1} x witness sets {0,A,B,AB} x caller context; hand-picked two-state batches; all 56 batches of 2-3 states over {A>B,B>C} x {0, non-zero} with a zero-valued state in every position, transfer and transferV2 of both tokens, witness sets {A,AB}) is executed and judged; transitions = calls on the real NativeService; classes = method x statement verdict x outcome")
 	var rc c06replay
 	isReplay := r.ReplayCase(&rc) && (rc.Root != "" || rc.Config != "")
 	type plan struct {
